@@ -213,6 +213,22 @@ def build_case(group, base, rnd):
             return ("bin", "+", ("sym", name), apm.num(5))
         if roll < 0.45 and v >= 0x8000:
             return apm.num(v - 0x10000)      # negative spelling of the same word
+        if roll < 0.6:
+            # the same word through an expression whose right operand nests (a looser operator left of a tighter one), so that
+            # an index register written after it binds to the innermost right operand first
+            b, c = rnd.randrange(1, 8), rnd.randrange(1, 8)
+            shape = rnd.randrange(4)
+            if shape == 0:
+                return ("bin", "+", apm.num(v - b * c), ("bin", "*", apm.num(b), apm.num(c))) if v >= b * c else \
+                       ("bin", "-", apm.num(v + b * c), ("bin", "*", apm.num(b), apm.num(c)))
+            if shape == 1:
+                lo = v & 0o77
+                return ("bin", "!", apm.num(v & ~0o77), ("bin", "+", apm.num(lo // 2), apm.num(lo - lo // 2)))
+            if shape == 2:
+                name = f"k{len(syms)}"
+                syms.append((name, v & 0o177400))
+                return ("bin", "+", ("sym", name), ("bin", "*", apm.num(v & 0o377), ("bin", ">>", apm.num(8, "d"), apm.num(3))))
+            return ("bin", "&", apm.num(v | 0o200000), ("bin", "-", apm.num(0o200000), apm.num(1)))
         return apm.num(v, rnd.choice([None, None, "d", "x"]))
 
     for name, recipe, tag in group:
@@ -233,6 +249,10 @@ def build_case(group, base, rnd):
                 k = 2 - 2 * x
                 ops.append(("br", ("bin", "+", ("dot",), apm.num(k, "d")) if k >= 0 else ("bin", "-", ("dot",), apm.num(-k, "d"))))
         stmts.append(apm.insn(name, *ops))
+        if rnd.random() < 0.08:
+            # the same spelling at several addresses with a location-dependent inline field
+            en, mask = rnd.choice([("trap", 0o377), ("emt", 0o377), ("mark", 0o77), ("spl", 7)])
+            stmts.append(apm.insn(en, ("inl", ("bin", "&", ("bin", "/", ("dot",), apm.num(2)), apm.num(mask)))))
         if rnd.random() < 0.15:
             stmts.append(rnd.choice([apm.data(".word", apm.num(rnd.randrange(0x10000))), apm.blk(".blkb", apm.num(2 * rnd.randrange(0, 6))),
                                      apm.data(".byte", apm.num(1), apm.num(2))]))
